@@ -661,7 +661,7 @@ def check_dominates(ctx):
     readers = [c for c in calls_in(cc) if call_name(c) in ("self._load_item", "self._get_memorized_result")]
     ctx.floor(len(readers), 2, "cache readers in _cached_call")
     for c in readers:
-        conds = gc_.conditions_at(gc_.nodes_of(c))
+        conds = gc_.atoms_at(gc_.nodes_of(c))
         ctx.check(any(isinstance(tt, ast.Call) and call_name(tt) == "self._is_in_cache_and_valid" and pol for (_, tt, pol) in conds), c, "cache is read only after _is_in_cache_and_valid() answered True")
     ck = M(ctx, "MemorizedFunc.check_call_in_cache")
     rets = nodes_of_type(ck, ast.Return)
